@@ -14,7 +14,7 @@ use vpmodel::spec::ChainSpec;
 pub const DEF: PropDef = PropDef {
     id: "C13",
     level: "exploration",
-    rule: "part 'threads': chains whose blocks hold up to hundreds of transactions and outputs (so that both nested parallel collects really split work) are processed with RAYON_NUM_THREADS in {1,2,3,8,16,64} and with 64 threads pinned to one CPU, while the other 15 shards keep all cores busy; every run must equal the reference model and the 1-thread run (csvdump byte-identical; simplestats report equal modulo the unordered type list; opreturn text identical; unspent/balances identical row sets). part 'reruns': sequences of 3..6 runs of generated callbacks sharing one data directory and one dump folder that is pre-seeded with longer stale *.tmp files and final-named files of an earlier range; after every run the callback's files must equal the model, no *.tmp of that callback may remain, SHA-256 of every blk*.dat and xor.dat and the key/value content of the index must be unchanged. Non-trivial = >=2 thread settings compared on a block with >=64 txs, or a sequence of >=3 runs; distinct by (chain hash, settings).",
+    rule: "part 'threads': chains whose blocks hold up to hundreds of transactions and outputs (so that both nested parallel collects really split work) are processed with RAYON_NUM_THREADS in {1,2,3,8,16,64}, with 64 threads pinned to one CPU, and with 4 / 8 threads whose futex calls are delayed by injected syscall delays (every 2nd / 3rd call of every thread), while the other 15 shards keep all cores busy; every run must equal the reference model and the 1-thread run (csvdump byte-identical; simplestats report equal modulo the unordered type list; opreturn text identical; unspent/balances identical row sets). part 'reruns': sequences of 3..6 runs of generated callbacks sharing one data directory and one dump folder that is pre-seeded with longer stale *.tmp files and final-named files of an earlier range; after every run the callback's files must equal the model, no *.tmp of that callback may remain, SHA-256 of every blk*.dat and xor.dat and the key/value content of the index must be unchanged. Non-trivial = >=2 thread settings compared on a block with >=64 txs, or a sequence of >=3 runs; distinct by (chain hash, settings).",
     assumptions: &["rayon's scheduler cannot be owned from outside: thread counts, CPU pinning and load sample interleavings, they do not enumerate them (DESIGN section 8)"],
     run,
     replay,
@@ -74,15 +74,27 @@ pub fn check_threads(c: &ThreadCase) -> Verdict {
     let mut plan = canonical_plan(built.coin, &built.blocks);
     let w = infra!(World::create("c13t", &mut plan));
     let all = built.all();
-    let settings: [(u32, bool); 7] = [(1, false), (2, false), (3, false), (8, false), (16, false), (64, false), (64, true)];
+    // (threads, pinned to one CPU, futex perturbation): the last two settings delay every k-th futex
+    // call of every thread (strace syscall-delay injection), which shifts wake-ups and work stealing
+    let settings: [(u32, bool, Option<&str>); 9] = [(1, false, None), (2, false, None), (3, false, None), (8, false, None), (16, false, None), (64, false, None), (64, true, None), (4, false, Some("1+2")), (8, false, Some("2+3"))];
     let mut runs = 0;
     for cb in [Callback::CsvDump, c.second] {
         let mut reference: Option<String> = None;
-        for (t, pin) in settings {
+        for (t, pin, perturb) in settings {
             let mut o = RunOpts::new(built.coin, cb);
             o.threads = Some(t);
             o.pin = pin;
+            if perturb.is_some() && cb != Callback::CsvDump {
+                continue;
+            }
+            if let Some(expr) = perturb {
+                o.inject = Some(vpmodel::run::Inject { syscall: "futex".into(), action: "delay_enter=400".into(), when: 1, paths: vec![], when_expr: Some(expr.to_string()) });
+            }
+            let t0 = std::time::Instant::now();
             let out = infra!(w.run(&o));
+            if std::env::var("VP_TIMING").is_ok() {
+                eprintln!("timing cb={} threads={} pin={} perturb={:?} {:.2}s stderr={}B", cb.cli(), t, pin, perturb, t0.elapsed().as_secs_f64(), out.stderr.len());
+            }
             runs += 1;
             if let Some(v) = timed_out_is_infra(&out) {
                 return v;
@@ -182,7 +194,7 @@ pub fn check_reruns(c: &RerunCase) -> Verdict {
 }
 
 fn run(eng: &Engine, a: &Args) {
-    let (nt, nr) = if a.tier == Tier::Quick { (48, 80) } else { (600, 800) };
+    let (nt, nr) = if a.tier == Tier::Quick { (32, 80) } else { (400, 800) };
     let tier = a.tier;
     eng.explore("threads", scaled(nt, a), move || thread_strategy(tier), check_threads);
     eng.explore("reruns", scaled(nr, a), move || rerun_strategy(tier), check_reruns);
